@@ -12,15 +12,20 @@ def _lean_list(xs):
     return "[" + ", ".join('"%s"' % x for x in xs) + "]"
 
 
+_UNRECOGNISED = "def hcStopOrder : List String := []\n\ndef hcAwaitGuard : String := \"unrecognised\""
+
+
 def _handle_stop(src):
+    """order of the steps of the `Stop` arm of `handle_cmd` and the guard of `join_all`; an unrecognised shape yields an
+    empty order (the `source_shape` theorem then fails) rather than a missing definition"""
     m = re.search(r"async fn handle_cmd\b.*?\n    \}\n", src, re.S)
     if not m:
-        raise Fail("async fn handle_cmd not found")
+        return _UNRECOGNISED, src[:200]
     body = m.group(0)
     a = re.search(r"ServerCommand::Stop\s*\{", body)
     b = re.search(r"ServerCommand::WorkerFaulted\s*\(", body)
     if not a or not b or b.start() < a.start():
-        raise Fail("handle_cmd: Stop arm followed by WorkerFaulted arm not found")
+        return _UNRECOGNISED, body
     arm = body[a.start():b.start()]
     steps = [
         ("stopping", r"self\.stopping\s*=\s*true"),
@@ -34,7 +39,7 @@ def _handle_stop(src):
     for name, rx in steps:
         ms = list(re.finditer(rx, arm))
         if len(ms) != 1:
-            raise Fail("handle_cmd(Stop): expected exactly one `%s` step, found %d" % (name, len(ms)))
+            return _UNRECOGNISED, arm
         found.append((ms[0].start(), name))
     order = [n for _, n in sorted(found)]
     if re.search(r"if\s+graceful\s*\{[^{}]*join_all\(\s*workers_stop\s*\)\s*\.await[^{}]*\}", arm):
@@ -50,7 +55,7 @@ def _handle_stop(src):
 def _run_loop(src):
     m = re.search(r"async fn run\(builder: ServerBuilder\).*?\n    \}\n", src, re.S)
     if not m:
-        raise Fail("ServerInner::run not found")
+        return "def srRunBreaksOnStopping : Bool := false", src[:200]
     body = m.group(0)
     ok = re.search(r"while let Some\(cmd\) = mux\.next\(\)\.await\s*\{\s*this\.handle_cmd\(cmd\)\.await;\s*if this\.stopping\s*\{\s*break;\s*\}\s*\}\s*Ok\(\(\)\)", body) is not None
     return "def srRunBreaksOnStopping : Bool := %s" % ("true" if ok else "false"), body
@@ -59,7 +64,7 @@ def _run_loop(src):
 def _handle_stop_eager(src):
     m = re.search(r"pub fn stop\(&self, graceful: bool\).*?\n    \}\n", src, re.S)
     if not m:
-        raise Fail("ServerHandle::stop not found")
+        return "def hsStopSendsEagerly : Bool := false", src[:200]
     body = m.group(0)
     send = re.search(r"self\.cmd_tx\.send\(\s*ServerCommand::Stop\s*\{", body)
     asyn = re.search(r"\basync\b", body)
@@ -77,16 +82,20 @@ _W = "actix-server/src/worker.rs"
 
 
 def _none_arm(src):
-    """the `None` arm of `match ready!(this.conn_rx.poll_recv(cx))` in the `Available` loop of `ServerWorker::poll`:
-    does it look at the `Stop` channel again (demanded by C06, finding F8) or return `Ready` unconditionally?"""
-    m = re.search(r"match\s+ready!\(\s*this\.conn_rx\.poll_recv\(cx\)\s*\)\s*\{", src)
+    """the `None` arm of the match on `this.conn_rx.poll_recv(cx)` in the `Available` loop of `ServerWorker::poll`:
+    does it look at the `Stop` channel again (demanded by C06, finding F8) or return `Ready` unconditionally?
+    An unrecognised shape yields `false` (not the demanded shape) rather than a missing definition, so that the
+    models still build and the proof / kernel-shape obligations report the change."""
+    pm = re.search(r"fn poll\(mut self: Pin<&mut Self>.*?\n    \}\n", src, re.S)
+    body = pm.group(0) if pm else src
+    m = re.search(r"match\s+ready!\(\s*this\.conn_rx\.poll_recv\(cx\)\s*\)\s*\{", body)
     if not m:
-        raise Fail("`match ready!(this.conn_rx.poll_recv(cx))` not found in worker.rs")
-    rest = src[m.end():]
+        return "def wkNoneArmPollsStop : Bool := false", body
+    rest = body[m.end():]
     n = re.search(r"\bNone\s*=>", rest)
     if not n:
-        raise Fail("`None =>` arm of the connection-channel match not found")
-    # the arm ends where the match closes: first `};` at the nesting depth of the match
+        return "def wkNoneArmPollsStop : Bool := false", body
+    # the arm ends where the match closes: first `}` at the nesting depth of the match
     depth, i, end = 0, n.end(), None
     while i < len(rest):
         c = rest[i]
@@ -99,7 +108,7 @@ def _none_arm(src):
             depth -= 1
         i += 1
     if end is None:
-        raise Fail("end of the connection-channel match not found")
+        return "def wkNoneArmPollsStop : Bool := false", body
     arm = rest[n.end():end]
     polls = re.search(r"stop_rx\s*\.\s*poll_recv\(", arm) is not None
     return "def wkNoneArmPollsStop : Bool := %s" % ("true" if polls else "false"), arm
